@@ -633,6 +633,9 @@ def r9(ctx):
             ctx.violations.append(o)
     ctx.analysed_bodies |= sub.analysed_bodies
     ctx.floor("C16.R9", 8)
+    # ... and the API handle in front of it: one Doc handle (and its clones) releases one handle, once (= C14.R5 close cells; F28)
+    from . import apifw
+    apifw.check_close_idempotent(ctx, "C16.R9")
 
 
 def r10(ctx):
